@@ -1096,7 +1096,7 @@ pub enum UnsubackReasonCode {
     NotAuthorized = 135,
 
     /// Returned when the topic filter was correctly formed but is not allowed for the client on the server.
-    TopicNameInvalid = 144,
+    TopicNameInvalid = 143,
 
     /// Returned when the packet identifier was already in use on the server.
     PacketIdentifierInUse = 145,
@@ -1119,7 +1119,7 @@ impl TryFrom<u8> for UnsubackReasonCode {
             128 => { Ok(UnsubackReasonCode::UnspecifiedError) }
             131 => { Ok(UnsubackReasonCode::ImplementationSpecificError) }
             135 => { Ok(UnsubackReasonCode::NotAuthorized) }
-            144 => { Ok(UnsubackReasonCode::TopicNameInvalid) }
+            143 => { Ok(UnsubackReasonCode::TopicNameInvalid) }
             145 => { Ok(UnsubackReasonCode::PacketIdentifierInUse) }
             _ => {
                 let message = format!("UnsubackReasonCode::try_from - Invalid unsuback reason code value ({})", value);
@@ -1139,7 +1139,7 @@ impl fmt::Display for UnsubackReasonCode {
                 UnsubackReasonCode::UnspecifiedError => { "128 - UnspecifiedError" }
                 UnsubackReasonCode::ImplementationSpecificError => { "131 - ImplementationSpecificError" }
                 UnsubackReasonCode::NotAuthorized => { "135 - NotAuthorized" }
-                UnsubackReasonCode::TopicNameInvalid => { "144 - TopicNameInvalid" }
+                UnsubackReasonCode::TopicNameInvalid => { "143 - TopicNameInvalid" }
                 UnsubackReasonCode::PacketIdentifierInUse => { "145 - PacketIdentifierInUse" }
             };
 
